@@ -468,3 +468,30 @@ func CallEnveloped(m *interp.Machine, p *interp.Prog, obj *interp.Object, fn *in
 	}
 	return res
 }
+
+// BadArgOfCall finds the first out-of-domain argument of a call, if any.
+func BadArgOfCall(pi *ProgInfo, call interp.CallSpec) (BadArg, bool) {
+	if pi.Acquire() != nil {
+		return BadArg{}, false
+	}
+	for _, mi := range pi.Methods {
+		if mi.Name != call.Method {
+			continue
+		}
+		args := MakeArgs(pi.P, mi.Fn, call.Args)
+		for i, a := range mi.Fn.Args {
+			if i >= len(args) || !argOutOfDomain(a.Typ, args[i]) {
+				continue
+			}
+			if a.Typ.K != interp.TInt {
+				return BadArg{i, "io", "null"}, true
+			}
+			b := "upper"
+			if args[i].I.Cmp(a.Typ.Min) < 0 {
+				b = "lower"
+			}
+			return BadArg{i, refinementShape(a.Typ), b}, true
+		}
+	}
+	return BadArg{}, false
+}
